@@ -54,6 +54,34 @@ def shapes(rng, n):
     return found
 
 
+_KEYS = []
+
+
+def key_encodings(rng):
+    from cryptography.hazmat.primitives.asymmetric import rsa
+    from cryptography.hazmat.primitives import serialization as S
+    from cryptography.hazmat.backends import default_backend
+    if not _KEYS:
+        for bits in (1024, 2048):
+            _KEYS.append(rsa.generate_private_key(public_exponent=65537, key_size=bits, backend=default_backend()).public_key())
+
+    def der_len(n):
+        if n < 128:
+            return bytes([n])
+        b = n.to_bytes((n.bit_length() + 7) // 8, 'big')
+        return bytes([0x80 | len(b)]) + b
+    out = []
+    for k in _KEYS:
+        spki = k.public_bytes(S.Encoding.DER, S.PublicFormat.SubjectPublicKeyInfo)
+        pkcs1 = k.public_bytes(S.Encoding.DER, S.PublicFormat.PKCS1)
+        algid = b'\x30\x0b\x06\x09\x2a\x86\x48\x86\xf7\x0d\x01\x01\x01'          # rsaEncryption, parameters omitted
+        bitstr = b'\x03' + der_len(len(pkcs1) + 1) + b'\x00' + pkcs1
+        nonull = b'\x30' + der_len(len(algid) + len(bitstr)) + algid + bitstr
+        out += [spki, pkcs1, nonull, k.public_bytes(S.Encoding.PEM, S.PublicFormat.SubjectPublicKeyInfo), k.public_bytes(S.Encoding.PEM, S.PublicFormat.PKCS1),
+                spki + b'\x00', spki[:-1], k.public_bytes(S.Encoding.OpenSSH, S.PublicFormat.OpenSSH)]
+    return out
+
+
 def run(chk):
     common.standard_proof(chk, 'Properties/C17.v')
     from minecraft.networking import encryption
@@ -70,6 +98,12 @@ def run(chk):
         secret = bytes(rng.randrange(256) for _ in range(16))
         key = bytes(rng.randrange(256) for _ in range(rng.choice([0, 1, 55, 56, 63, 64, 65, 162, 294])))
         cases.append((sid, secret, key))
+    # the key is hashed as the BYTES the server sent, whatever their encoding: real RSA keys in every encoding a parser
+    # would accept (canonical SubjectPublicKeyInfo DER, PKCS#1 RSAPublicKey DER, SPKI with the NULL parameters left out,
+    # PEM text, DER with trailing bytes)
+    for kb in key_encodings(rng):
+        cases.append((rng.choice(['', '-', 'srv']), bytes(rng.randrange(256) for _ in range(16)), kb))
+        chk.tally('key:real-rsa-encoding')
     model = run_model([('verification_hash', [[ord(c) for c in sid], secret, key]) for sid, secret, key in cases])
     for (sid, secret, key), m in zip(cases, model):
         chk.count('hash', [sid, secret.hex(), key.hex()], True)
